@@ -13,7 +13,8 @@ Every scenario is a finite history driven through the REAL `txdbus.client.connec
   * the transport close (`connectionLost(reason)`) is injected at EVERY point of every base history;
   * `txdbus.client.reactor` is the same MemoryReactorClock, so call timeouts are virtual DelayedCalls;
   * pending calls and disconnect callbacks are real Python callables that carry a reaction
-    (nothing / issue a new call / unregister itself / register another callback) which they perform
+    (nothing / issue a new call / unregister itself / register another callback / obtain a new proxy
+    synchronously from explicit interfaces and register a callback on it) which they perform
     when the code runs them inside `connectionLost`;
   * proxies come from `getRemoteObject` with explicit interfaces (a DBusInterface, a list of them, a known
     name) and via introspection (interfaces=None, an unknown name, a list with an unknown name; the
@@ -64,7 +65,7 @@ RULE = ('endpoints-parse: rendered well-formed address lists plus mutations (dro
         'distinct canonical JSON of (address, steps); non-trivial = the transport connected (lifecycle) / at least one '
         'entry (parse)')
 
-REACTIONS = ['n', 'c', 'u', 'r']
+REACTIONS = ['n', 'c', 'u', 'r', 'p']
 XML_HEAD = ('<!DOCTYPE node PUBLIC "-//freedesktop//DTD D-BUS Object Introspection 1.0//EN" '
             '"http://www.freedesktop.org/standards/dbus/1.0/introspect.dtd">\n')
 
@@ -184,6 +185,8 @@ class ConnCb:
             conn.cancelNotifyOnDisconnect(self)
         elif self.r == 'r':
             conn.notifyOnDisconnect(ConnCb(run, run.new_cb(late=True), 'n'))
+        elif self.r == 'p':
+            run.late_proxy(conn)
 
 
 class ProxyCb:
@@ -200,6 +203,8 @@ class ProxyCb:
             proxy.cancelNotifyOnDisconnect(self)
         elif self.r == 'r':
             proxy.notifyOnDisconnect(ProxyCb(run, self.pid, run.new_cb(late=True), 'n'))
+        elif self.r == 'p':
+            run.late_proxy(proxy.objHandler.conn)
 
 
 class Run:
@@ -356,6 +361,8 @@ class Run:
                     self.issue_call(self.proto, None, 'n', during_loss=True)
                 elif r == 'r':
                     self.proto.notifyOnDisconnect(ConnCb(self, self.new_cb(late=True), 'n'))
+                elif r == 'p':
+                    self.late_proxy(self.proto)
         d.addCallbacks(ok, err)
 
     def issue_call(self, conn, timeout, r, during_loss=False):
@@ -366,6 +373,22 @@ class Run:
             self.unexpected.append('callRemote made %d table entries' % len(new))
             return
         self.attach(d, new[0], r)
+
+    def late_proxy(self, conn):
+        """Reaction 'p': obtain a new proxy synchronously (explicit interfaces) and register a callback on it."""
+        iface = self.iface_for(900)
+        got = []
+        conn.getRemoteObject('org.example.Late', '/org/example/late', iface).addCallbacks(
+            got.append, lambda f: self.unexpected.append('getRemoteObject(explicit) inside connectionLost failed: '
+                                                          + f.type.__name__))
+        if not got:
+            return
+        p = self.add_proxy(got[0], True, 900, 'iface')
+        del got[:]
+        rec = self.proxies[p]
+        cb = ProxyCb(self, p, self.new_cb(late=True), 'n')
+        rec['cbs'].append(cb)
+        rec['obj'].notifyOnDisconnect(cb)
 
     def snapshot_at_loss(self):
         self.at_loss = {
@@ -1001,7 +1024,7 @@ class ReadyGen:
         self.deadlines = set()
 
     def reaction(self):
-        return self.rng.choice(['n', 'n', 'c', 'u', 'r'])
+        return self.rng.choice(['n', 'n', 'c', 'u', 'r', 'p'])
 
     def step(self):
         rng = self.rng
@@ -1030,7 +1053,7 @@ class ReadyGen:
             i = self.next_serial
             self.next_serial += 1
             self.pending[i] = {'kind': 'user', 'deadline': None if timeout is None else self.now + timeout}
-            return [{'op': 'call', 'timeout': timeout, 'r': rng.choice(['n', 'n', 'c', 'r', 'u'])}]
+            return [{'op': 'call', 'timeout': timeout, 'r': rng.choice(['n', 'n', 'c', 'r', 'u', 'p'])}]
         if op == 'notify':
             self.conn_cbs.append(self.next_cb)
             self.next_cb += 1
@@ -1141,7 +1164,7 @@ def gen_reaction_skeletons(quick):
     out = []
     for explicit in (True, False):
         for rs in itertools.product(REACTIONS, repeat=conn_n):
-            for cs in itertools.product(['n', 'c', 'r'], repeat=call_n):
+            for cs in itertools.product(['n', 'c', 'r', 'p'], repeat=call_n):
                 for ps in itertools.product(REACTIONS, repeat=pcb_n):
                     steps = [{'op': 'ac'}, {'op': 'auth', 'hex': (b'OK ' + GUID + b'\r\n').hex(), 'tok': ['ao']},
                              {'op': 'hello', 'ok': True}]
@@ -1162,7 +1185,7 @@ def gen_reaction_skeletons(quick):
     # two live proxies of the SAME remote object (same bus name, path, interfaces), obtained both ways
     for how in (('i', 'i'), ('e', 'e'), ('e', 'i'), ('i', 'e')):
         for r0 in REACTIONS:
-            for c0 in ['n', 'c', 'r']:
+            for c0 in ['n', 'c', 'r', 'p']:
                 for ps in itertools.product(REACTIONS, repeat=2):
                     steps = [{'op': 'ac'}, {'op': 'auth', 'hex': (b'OK ' + GUID + b'\r\n').hex(), 'tok': ['ao']},
                              {'op': 'hello', 'ok': True}, {'op': 'notify', 'r': r0},
